@@ -27,6 +27,8 @@ class Sched:
         self.actions = {}        # name -> (enabled_fn, do_fn)  harness actions
         self.trace = []          # labels of actions taken, in order
         self.varied = 0          # decisions that had >= 2 alternatives
+        self.branching = []      # number of enabled actions at each decision (for enumeration)
+        self.taken = []          # index taken at each decision
         self.hang = False
         self.main_task = None
         self.max_steps = max_steps
@@ -58,6 +60,8 @@ class Sched:
         self.pos += 1
         if n > 1:
             self.varied += 1
+        self.branching.append(n)
+        self.taken.append(v % n)
         return v % n
 
     def _tick(self):
@@ -139,3 +143,13 @@ class Sched:
         finally:
             asyncio.set_event_loop(None)
             self.loop.close()
+
+
+def next_schedule(taken, branching):
+    """Depth-first successor of a schedule in the choice tree (None when the tree is exhausted)."""
+    i = len(taken) - 1
+    while i >= 0 and taken[i] >= branching[i] - 1:
+        i -= 1
+    if i < 0:
+        return None
+    return list(taken[:i]) + [taken[i] + 1]
